@@ -299,10 +299,9 @@ class Parameter(Accessible):
         """
         self.fixExport()
         if self.constant is not None:
-            constant = self.datatype(self.constant)
-            # The value of the `constant` property should be the
-            # serialised version of the constant, or unset
-            self.constant = self.datatype.export_value(constant)
+            # keep the converted internal value (finish may be called several times,
+            # e.g. on each copy): it is serialised in exportProperties
+            self.constant = self.datatype(self.constant)
             self.readonly = True
         for propname in 'default', 'value':
             if propname in self.propertyValues:
@@ -325,6 +324,12 @@ class Parameter(Accessible):
 
     def for_export(self):
         return dict(self.exportProperties(), readonly=self.readonly)
+
+    def exportProperties(self):
+        result = super().exportProperties()
+        if self.constant is not None:
+            result['constant'] = self.datatype.export_value(self.constant)
+        return result
 
     def getProperties(self):
         """get also properties of datatype"""
